@@ -627,6 +627,44 @@ def rule_p1(ctx, F):
             ctx.bad("P1", "Stack:heads-and-pool-elements", "ts_stack_delete no longer deletes each head / frees each pooled node")
 
 
+# resume flags whose "set" state licenses an assertion / dereference at the label they jump to
+RESUME_PAIRS = [
+    ("TSParser", "canceled_balancing", "finished_tree",
+     "ts_parser_parse jumps to `balance:` when the flag is set and asserts (dereferences, under NDEBUG) self->finished_tree there"),
+]
+
+
+def rule_a1(ctx, F):
+    """A1: a resume flag never outlives the object it promises: whenever `field` is emptied, the
+    flag is cleared before the function returns (directly or by a callee that always clears it)."""
+    for rec, flag, field, why in RESUME_PAIRS:
+        def stores_of(fn, f, pred):
+            out = []
+            for pt, e in fn.points():
+                for n in own_walk(e):
+                    if n.get("k") == "assign" and strip(n["l"]).get("k") == "mem" and strip(n["l"])["f"] == f and strip(n["l"]).get("rec") == rec and pred(strip(n["r"])):
+                        out.append(pt)
+            return out
+        is_null = lambda r: r.get("k") in ("null", "zero") or (r.get("k") == "int" and not r.get("v")) or (r.get("k") == "init" and all(strip(x["e"]).get("k") in ("null", "zero") for x in r.get("fields", [])))
+        is_false = lambda r: r.get("k") == "int" and not r.get("v")
+        # callees that clear the flag on every path
+        clearing = set()
+        for fn in F.fn_list:
+            pts = stores_of(fn, flag, is_false)
+            if pts and Search(fn, BeforeMonitor((), pts, check_exit=True)).run(False) is None:
+                clearing.add(fn.name)
+        n = 0
+        for fn in F.fn_list:
+            nulls = stores_of(fn, field, is_null)
+            if not nulls:
+                continue
+            n += 1
+            obl = stores_of(fn, flag, is_false) + [pt for pt, c in fn.calls() if callee_name(c) in clearing]
+            ctx.after("A1", "%s:%s-cleared-with-%s" % (fn.name, flag, field), fn, nulls, obl,
+                      "after emptying %s the resume flag %s is cleared before returning" % (field, flag))
+        ctx.floor("functions that empty %s.%s" % (rec, field), n, 3)
+
+
 def run(ctx):
     for cfg in configs(ctx):
         ctx.config = cfg
@@ -638,6 +676,7 @@ def run(ctx):
         rule_p2(ctx, F)
         rule_w1(ctx, F)
         rule_p1(ctx, F)
+        rule_a1(ctx, F)
     ctx.assumptions = ["an external scanner's serialize() writes at most TREE_SITTER_SERIALIZATION_BUFFER_SIZE bytes into the buffer it is given (documented contract; foreign code)",
                        "Clang/rustc front ends are faithful", "index counters tested with == against their bound only ever grow by one (DESIGN §3.6 (c))"]
     try:
